@@ -167,7 +167,18 @@ pub struct World {
     pub uncertain: BTreeSet<String>,
 }
 
+/// Special ticks: a file stamped exactly at, or before, the Unix epoch (reproducible-build tooling
+/// does that); to n2 these are timestamps like any other.
+pub const TICK_EPOCH: u64 = u64::MAX;
+pub const TICK_BEFORE_EPOCH: u64 = u64::MAX - 1;
+
 fn mtime_of(tick: u64) -> std::time::SystemTime {
+    if tick == TICK_EPOCH {
+        return std::time::UNIX_EPOCH;
+    }
+    if tick == TICK_BEFORE_EPOCH {
+        return std::time::UNIX_EPOCH - std::time::Duration::new(86400, 0);
+    }
     std::time::UNIX_EPOCH + std::time::Duration::new(1_600_000_000 + tick, (tick.wrapping_mul(7919) % 1_000_000_000) as u32)
 }
 
@@ -218,6 +229,15 @@ impl World {
         let t = self.st.tick();
         write_real(&self.dir, name, format!("{:016x}\n", content).as_bytes(), t).expect("write source");
         self.st.disk.insert(name.to_string(), FileSt { tick: t, content });
+    }
+
+    /// `touch -d @0 name` (or a day earlier)
+    pub fn stamp_epoch(&mut self, name: &str, before: bool) {
+        if let Some(old) = self.st.disk.get(name).copied() {
+            let t = if before { TICK_BEFORE_EPOCH } else { TICK_EPOCH };
+            touch_real(&self.dir, name, t).expect("touch");
+            self.st.disk.insert(name.to_string(), FileSt { tick: t, content: old.content });
+        }
     }
 
     pub fn touch(&mut self, name: &str) {
